@@ -370,3 +370,17 @@ func structLitOf(v Val) (string, map[string]Val, bool) {
 	}
 	return "", nil, false
 }
+
+// finalFieldState: final value of obj.<name> with how it is known: "stored" (heap entry), "zero" (obj is a fresh
+// allocation of this path that nothing could have written behind the engine's back), "unknown".
+func (t *Terminal) finalFieldState(obj Val, name string) (Val, string) {
+	if v, ok := t.finalField(obj, name); ok {
+		return v, "stored"
+	}
+	if a, isAlloc := obj.(*AllocV); isAlloc {
+		if _, dirty := t.St.dirty[a.Key()]; !dirty {
+			return nil, "zero"
+		}
+	}
+	return nil, "unknown"
+}
